@@ -1,2 +1,591 @@
-(* placeholder, filled below *)
-From AV Require Import Deser.Model Deser.Spec.
+(* Strict-mode correctness, part 2: hashability, check-only methods, unions, objects, main theorem. *)
+From Coq Require Import List String ZArith Bool Arith Lia.
+From AV Require Import Core.Json Core.Errors Core.Text Deser.Model Deser.Spec Deser.Unfold Deser.Loops.
+Import ListNotations.
+#[local] Hint Resolve agree_fuel_l agree_fuel_r agree_err agree_ok : core.
+
+Section Main.
+Variable u : univ.
+Variable o : dopts.
+Hypothesis strict : o_coerce o = false.
+
+Notation ex := (exec u o).
+Notation sp := (spec u o).
+
+Lemma accept_ok cs d v v' : accept cs d v = SOk v' -> v = v'.
+Proof. unfold accept. destruct (all_valid cs d); [intros H; injection H; auto|discriminate]. Qed.
+
+Lemma first_spec_ok (h : ty -> sres) ts v :
+  first_spec h ts = SOk v -> exists t, In t ts /\ h t = SOk v.
+Proof.
+  induction ts as [|t ts IH]; simpl; [discriminate|].
+  destruct (h t) eqn:E; intros H.
+  - injection H as <-. exists t. split; [left; reflexivity|exact E].
+  - destruct (IH H) as [t' [Hin Ht']]. exists t'. split; [right; exact Hin|exact Ht'].
+  - discriminate.
+Qed.
+
+Lemma set_add_hashable : forall vs acc, forallb hashable acc = true -> forallb hashable vs = true ->
+  forallb hashable (fold_left set_add vs acc) = true.
+Proof.
+  induction vs as [|v vs IH]; simpl; intros acc Ha Hv; [exact Ha|].
+  apply andb_true_iff in Hv. destruct Hv as [Hv1 Hv2]. apply IH; [|exact Hv2].
+  unfold set_add. destruct (existsb (py_eq v) acc); [exact Ha|].
+  rewrite forallb_app. simpl. rewrite Ha, Hv1. reflexivity.
+Qed.
+
+Lemma spec_hashable fuel : forall t acc d v,
+  hashable_ty t = true -> sp fuel acc t d = SOk v -> hashable v = true.
+Proof.
+  induction t using ty_ind'; intros acc d v Hh Hs; simpl in Hh; try discriminate.
+  - rewrite spec_TNone in Hs. destruct d; try discriminate. injection Hs as <-. reflexivity.
+  - rewrite spec_TBool in Hs. destruct d; try discriminate. injection Hs as <-. reflexivity.
+  - rewrite spec_TInt in Hs. destruct d; try discriminate. apply accept_ok in Hs. subst. reflexivity.
+  - rewrite spec_TFloat in Hs. destruct d; try discriminate.
+    + destruct (Z.ltb _ _); [|discriminate]. apply accept_ok in Hs. subst. reflexivity.
+    + apply accept_ok in Hs. subst. reflexivity.
+  - rewrite spec_TStr in Hs. destruct d; try discriminate. apply accept_ok in Hs. subst. reflexivity.
+  - rewrite spec_TColl in Hs. destruct d; try discriminate.
+    destruct (all_ok _) as [[vs|]|] eqn:E; try discriminate. apply accept_ok in Hs. subst v.
+    destruct k; try discriminate; simpl; [reflexivity|].
+    apply all_ok_some in E. clear - E IHt Hh.
+    induction E as [|x v l vs Hx E IH]; simpl; [reflexivity|].
+    rewrite (IHt _ _ _ Hh Hx), IH. reflexivity.
+  - rewrite spec_TTuple in Hs. destruct d; try discriminate.
+    destruct (negb _) eqn:Hlen; [discriminate|].
+    destruct (all_ok _) as [[vs|]|] eqn:E; try discriminate. apply accept_ok in Hs. subst v. simpl.
+    apply negb_false_iff, Nat.eqb_eq in Hlen.
+    apply zip_ok_some in E; [|exact Hlen]. clear Hlen.
+    revert l vs E Hh. induction H as [|t ts Ht Hts IH]; intros l vs E Hh.
+    + simpl in E. inversion E. reflexivity.
+    + destruct l as [|x l]; simpl in E; inversion E as [|? ? ? ? Hx Hrest]; subst; [reflexivity|].
+      simpl in Hh. apply andb_true_iff in Hh. destruct Hh as [Hh1 Hh2]. simpl.
+      simpl in Hx. rewrite (Ht _ _ _ Hh1 Hx). eapply IH; eassumption.
+  - rewrite spec_TLit in Hs. destruct (prim_of d) as [p|]; [|discriminate].
+    destruct (existsb _ _); [|discriminate]. injection Hs as <-. destruct p; reflexivity.
+  - rewrite spec_TEnum in Hs. destruct (prim_of d) as [p|]; [|discriminate].
+    destruct (existsb _ _); [|discriminate]. injection Hs as <-. reflexivity.
+  - rewrite spec_TCon in Hs. eapply IHt; eassumption.
+  - rewrite spec_TUnion in Hs. apply first_spec_ok in Hs. destruct Hs as [t [Hin Ht]].
+    rewrite Forall_forall in H. rewrite forallb_forall in Hh. eapply H; [exact Hin|apply Hh; exact Hin|exact Ht].
+Qed.
+
+(* ---------------------------------------------------------------- check-only methods return the data itself *)
+Lemma py_eq_VStr a b : py_eq (VStr a) (VStr b) = String.eqb a b.
+Proof. reflexivity. Qed.
+
+Lemma dict_set_fresh_str (g : string * pyval -> value) pre k v :
+  existsb (String.eqb k) (map fst pre) = false ->
+  dict_set (map (fun kv => (VStr (fst kv), g kv)) pre) (VStr k) v
+  = (map (fun kv => (VStr (fst kv), g kv)) pre ++ [(VStr k, v)])%list.
+Proof.
+  induction pre as [|[k' x] pre IH]; intros H; [reflexivity|].
+  cbn [map fst existsb] in H. apply orb_false_iff in H. destruct H as [H1 H2].
+  cbn [map fst dict_set app]. rewrite py_eq_VStr, H1. rewrite IH by exact H2. reflexivity.
+Qed.
+
+Lemma nodup_strs_app_cons pre k (rest : list string) :
+  nodup_strs (pre ++ k :: rest) = true ->
+  existsb (String.eqb k) pre = false /\ nodup_strs ((pre ++ [k]) ++ rest) = true.
+Proof.
+  intros H. rewrite <- app_assoc. simpl. split; [|exact H].
+  induction pre as [|p pre IH]; simpl in *; [reflexivity|].
+  apply andb_true_iff in H. destruct H as [H1 H2]. rewrite (IH H2), orb_false_r.
+  apply negb_true_iff in H1. rewrite existsb_app in H1. apply orb_false_iff in H1. destruct H1 as [_ H1].
+  simpl in H1. apply orb_false_iff in H1. destruct H1 as [H1 _]. rewrite String.eqb_sym. exact H1.
+Qed.
+
+Lemma fold_dict_strs (g : string * pyval -> value) kvs : forall pre,
+  nodup_strs (map fst (pre ++ kvs)) = true ->
+  fold_left (fun a kv => dict_set a (fst kv) (snd kv)) (map (fun kv => (VStr (fst kv), g kv)) kvs)
+            (map (fun kv => (VStr (fst kv), g kv)) pre)
+  = map (fun kv => (VStr (fst kv), g kv)) (pre ++ kvs).
+Proof.
+  induction kvs as [|[k x] kvs IH]; intros pre H; simpl; [rewrite app_nil_r; reflexivity|].
+  rewrite map_app in H. simpl in H. apply nodup_strs_app_cons in H. destruct H as [H1 H2].
+  rewrite dict_set_fresh_str by exact H1.
+  replace (map (fun kv => (VStr (fst kv), g kv)) pre ++ [(VStr k, g (k, x))])%list
+    with (map (fun kv => (VStr (fst kv), g kv)) (pre ++ [(k, x)])) by (rewrite map_app; reflexivity).
+  rewrite IH.
+  - rewrite <- app_assoc. reflexivity.
+  - rewrite !map_app. simpl. exact H2.
+Qed.
+
+Lemma forall2_embed (h : pyval -> sres) l vs :
+  Forall2 (fun x v => h x = SOk v) l vs ->
+  (forall x v, In x l -> h x = SOk v -> v = embed x) -> vs = map embed l.
+Proof.
+  induction 1 as [|x v l vs Hx Hl IH]; intros H; simpl; [reflexivity|].
+  f_equal; [apply H; [left; reflexivity|exact Hx]|apply IH]. intros. eapply H; [right|]; eassumption.
+Qed.
+
+Lemma wf_data_list l x : wf_data (PList l) = true -> In x l -> wf_data x = true.
+Proof. simpl. intros H Hin. rewrite forallb_forall in H. apply H. exact Hin. Qed.
+
+Lemma wf_data_dict_go kvs :
+  (fix go (kvs : list (string * pyval)) : bool :=
+     match kvs with [] => true | (_, x) :: r => wf_data x && go r end) kvs = true ->
+  forall k x, In (k, x) kvs -> wf_data x = true.
+Proof.
+  induction kvs as [|[k' x'] kvs IH]; simpl; intros H k x Hin; [contradiction|].
+  apply andb_true_iff in H. destruct H as [H1 H2]. destruct Hin as [E|Hin]; [injection E as <- <-; exact H1|].
+  eapply IH; eassumption.
+Qed.
+
+Lemma wf_data_dict kvs : wf_data (PDict kvs) = true ->
+  nodup_strs (map fst kvs) = true /\ forall k x, In (k, x) kvs -> wf_data x = true.
+Proof.
+  cbn [wf_data]. intros H. apply andb_true_iff in H. destruct H as [H1 H2]. split; [exact H1|].
+  apply wf_data_dict_go. exact H2.
+Qed.
+
+Lemma check_only_combine (clss : list pcls) (ms : list meth) :
+  List.length clss = List.length ms ->
+  forallb (fun cm : pcls * meth => check_only (snd cm)) (combine clss ms) = true -> forallb check_only ms = true.
+Proof.
+  revert ms. induction clss as [|c clss IH]; intros [|m ms] Hl H; simpl in *; try discriminate; [reflexivity|].
+  apply andb_true_iff in H. destruct H as [H1 H2]. rewrite H1. apply IH; [lia|exact H2].
+Qed.
+
+Lemma flat_some_length (clss : list (option pcls)) :
+  forallb (fun c => match c with Some _ => true | None => false end) clss = true ->
+  List.length (flat_map (fun c => match c with Some x => [x] | None => [] end) clss) = List.length clss.
+Proof.
+  induction clss as [|[c|] clss IH]; simpl; intros H; try discriminate; [reflexivity|]. rewrite IH by exact H. reflexivity.
+Qed.
+
+(* which method a union compiles to *)
+Inductive union_shape (acc : option constraints) (ts : list ty) : meth -> Prop :=
+| US_single t1 : ts = [t1] -> union_shape acc ts (compile o acc t1)
+| US_opt_l b : ts = [TNone; b] -> is_none_ty b = false -> union_shape acc ts (MOptional (compile o acc b) false)
+| US_opt_r a : ts = [a; TNone] -> is_none_ty a = false -> union_shape acc ts (MOptional (compile o acc a) false)
+| US_bytype : forallb (fun c => match c with Some _ => true | None => false end) (map ty_cls ts) = true ->
+              nodup_cls (flat_map (fun c => match c with Some x => [x] | None => [] end) (map ty_cls ts)) = true ->
+              union_shape acc ts (MByType (combine (flat_map (fun c => match c with Some x => [x] | None => [] end)
+                                                             (map ty_cls ts)) (map (compile o acc) ts)))
+| US_union : union_shape acc ts (MUnion (map (compile o acc) ts)).
+
+Lemma compile_union_shape acc ts : union_shape acc ts (compile o acc (TUnion ts)).
+Proof.
+  cbn [compile]. rewrite strict.
+  destruct ts as [|a [|b [|c ts]]].
+  - cbn. apply (US_bytype acc []); reflexivity.
+  - apply US_single. reflexivity.
+  - cbn [existsb List.length Nat.eqb orb andb].
+    destruct (is_none_ty a) eqn:Ea; destruct (is_none_ty b) eqn:Eb; cbn [orb andb combine map filter fst negb].
+    + rewrite Ea, Eb. cbn. apply US_union.
+    + rewrite Ea, Eb. cbn. destruct a; try discriminate. apply US_opt_l; [reflexivity|exact Eb].
+    + rewrite Ea, Eb. cbn. destruct b; try discriminate. apply US_opt_r; [reflexivity|exact Ea].
+    + cbn [existsb is_coerce].
+      match goal with |- union_shape _ _ (if ?c then _ else _) => destruct c eqn:Ec end; [|apply US_union].
+      apply andb_true_iff in Ec. destruct Ec as [Ec _]. apply andb_true_iff in Ec. destruct Ec as [E1 E2].
+      apply US_bytype; assumption.
+  - cbn [List.length Nat.eqb]. rewrite andb_false_r.
+    match goal with |- union_shape _ _ (if ?c then _ else _) => destruct c eqn:Ec end; [|apply US_union].
+    apply andb_true_iff in Ec. destruct Ec as [Ec _]. apply andb_true_iff in Ec. destruct Ec as [E1 E2].
+    apply US_bytype; assumption.
+Qed.
+
+Lemma check_only_embed fuel : forall t acc d v,
+  wf_data d = true -> check_only (compile o acc t) = true -> sp fuel acc t d = SOk v -> v = embed d.
+Proof.
+  induction t using ty_ind'; intros acc d v Hwf Hco Hs.
+  - rewrite spec_TNone in Hs. destruct d; try discriminate. injection Hs as <-. reflexivity.
+  - rewrite spec_TBool in Hs. destruct d; try discriminate. injection Hs as <-. reflexivity.
+  - rewrite spec_TInt in Hs. destruct d; try discriminate. apply accept_ok in Hs. subst. reflexivity.
+  - cbn [compile] in Hco. unfold wrap_coerce in Hco. rewrite strict in Hco. discriminate.
+  - rewrite spec_TStr in Hs. destruct d; try discriminate. apply accept_ok in Hs. subst. reflexivity.
+  - cbn in Hco. discriminate.
+  - (* collections *)
+    cbn [compile] in Hco. unfold wrap_coerce in Hco. rewrite strict in Hco.
+    destruct k; try (cbn in Hco; discriminate).
+    destruct (o_nocopy o && check_only (compile o None t))%bool eqn:E; [|cbn in Hco; discriminate].
+    apply andb_true_iff in E. destruct E as [_ E].
+    rewrite spec_TColl in Hs. destruct d; try discriminate.
+    destruct (all_ok _) as [[vs|]|] eqn:Ea; try discriminate. apply accept_ok in Hs. subst v. simpl.
+    f_equal. apply all_ok_some in Ea. eapply forall2_embed; [exact Ea|].
+    intros x v Hin Hx. eapply IHt; [eapply wf_data_list; eassumption|exact E|exact Hx].
+  - cbn [compile] in Hco. unfold wrap_coerce in Hco. rewrite strict in Hco. discriminate.
+  - (* mappings *)
+    cbn [compile] in Hco. unfold wrap_coerce in Hco. rewrite strict in Hco.
+    destruct (o_nocopy o && check_only (compile o None t1) && check_only (compile o None t2))%bool eqn:E;
+      [|cbn in Hco; discriminate].
+    apply andb_true_iff in E. destruct E as [E E2]. apply andb_true_iff in E. destruct E as [_ E1].
+    rewrite spec_TMap in Hs. destruct d; try discriminate.
+    destruct (all_ok (map (fun kv => sp fuel None t1 (PStr (fst kv))) l)) as [[ks|]|] eqn:Ek; try discriminate;
+      destruct (all_ok (map (fun kv => sp fuel None t2 (snd kv)) l)) as [[vs|]|] eqn:Ev; try discriminate.
+    apply accept_ok in Hs. subst v.
+    destruct (wf_data_dict _ Hwf) as [Hnd Hsub].
+    assert (Hks : ks = map (fun kv => VStr (fst kv)) l).
+    { apply all_ok_some in Ek. clear - Ek IHt1 E1.
+      induction Ek as [|kv v l ks Hx _ IH]; simpl; [reflexivity|]. f_equal; [|exact IH].
+      eapply (IHt1 None (PStr (fst kv))); [reflexivity|exact E1|exact Hx]. }
+    assert (Hvs : vs = map (fun kv => embed (snd kv)) l).
+    { apply all_ok_some in Ev. clear - Ev IHt2 E2 Hsub.
+      induction Ev as [|kv v l vs Hx _ IH]; simpl; [reflexivity|]. f_equal.
+      - destruct kv as [k x]. eapply IHt2; [eapply Hsub; left; reflexivity|exact E2|exact Hx].
+      - apply IH. intros. eapply Hsub. right. eassumption. }
+    subst ks vs. cbn [embed]. f_equal.
+    replace (combine (map (fun kv => VStr (fst kv)) l) (map (fun kv => embed (snd kv)) l))
+      with (map (fun kv : string * pyval => (VStr (fst kv), embed (snd kv))) l).
+    + pose proof (fold_dict_strs (fun kv => embed (snd kv)) l [] Hnd) as HH. cbn [map app] in HH. exact HH.
+    + clear. induction l as [|kv l IH]; cbn [map combine]; [reflexivity|]. rewrite IH. reflexivity.
+  - cbn in Hco. discriminate.
+  - cbn in Hco. discriminate.
+  - rewrite spec_TCon in Hs. cbn [compile] in Hco. eapply IHt; eassumption.
+  - (* unions *)
+    rewrite spec_TUnion in Hs. apply first_spec_ok in Hs. destruct Hs as [t [Hin Ht]].
+    rewrite Forall_forall in H.
+    pose proof (compile_union_shape acc ts) as Sh.
+    remember (compile o acc (TUnion ts)) as m eqn:Em. clear Em.
+    destruct Sh as [t1 E|b E Hb|a E Ha|E1 E2|].
+    + subst ts. destruct Hin as [<-|[]]. eapply H; [left; reflexivity|exact Hwf|exact Hco|exact Ht].
+    + subst ts. cbn in Hco. destruct Hin as [<-|[<-|[]]].
+      * rewrite spec_TNone in Ht. destruct d; try discriminate. injection Ht as <-. reflexivity.
+      * eapply H; [right; left; reflexivity|exact Hwf|exact Hco|exact Ht].
+    + subst ts. cbn in Hco. destruct Hin as [<-|[<-|[]]].
+      * eapply H; [left; reflexivity|exact Hwf|exact Hco|exact Ht].
+      * rewrite spec_TNone in Ht. destruct d; try discriminate. injection Ht as <-. reflexivity.
+    + cbn [check_only] in Hco. apply check_only_combine in Hco; [|rewrite flat_some_length, !map_length; [reflexivity|exact E1]].
+      rewrite forallb_forall in Hco. eapply H; [exact Hin|exact Hwf| |exact Ht].
+      apply Hco. apply in_map. exact Hin.
+    + cbn [check_only] in Hco. rewrite forallb_forall in Hco. eapply H; [exact Hin|exact Hwf| |exact Ht].
+      apply Hco. apply in_map. exact Hin.
+  - cbn [compile] in Hco. unfold wrap_coerce in Hco. rewrite strict in Hco. discriminate.
+Qed.
+
+(* ---------------------------------------------------------------- literals *)
+Lemma literal_agree eid vs d :
+  agree (exec_literal eid vs false d)
+        (match prim_of d with
+         | Some p => if existsb (prim_eqb p) vs then SOk (lit_result eid p) else SRej
+         | None => SRej
+         end).
+Proof.
+  unfold exec_literal. destruct d; simpl; auto;
+    try (match goal with |- context [existsb ?f vs] => destruct (existsb f vs) end; simpl; auto).
+  match goal with |- context [if ?c then _ else _] => destruct c end; simpl; auto.
+Qed.
+
+(* ---------------------------------------------------------------- unions *)
+Definition rej_or_fuel (s : sres) : Prop := s = SRej \/ s = SFuel.
+
+Lemma first_all_rej (h : ty -> sres) ts : (forall t, In t ts -> rej_or_fuel (h t)) -> rej_or_fuel (first_spec h ts).
+Proof.
+  induction ts as [|t ts IH]; intros H; simpl; [left; reflexivity|].
+  destruct (H t (or_introl eq_refl)) as [E|E]; rewrite E; [|right; reflexivity].
+  apply IH. intros. apply H. right. assumption.
+Qed.
+
+Lemma first_skip (h : ty -> sres) pre rest :
+  (forall t, In t pre -> rej_or_fuel (h t)) ->
+  first_spec h (pre ++ rest) = SFuel \/ first_spec h (pre ++ rest) = first_spec h rest.
+Proof.
+  induction pre as [|t pre IH]; intros H; simpl; [right; reflexivity|].
+  destruct (H t (or_introl eq_refl)) as [E|E]; rewrite E; [|left; reflexivity].
+  apply IH. intros. apply H. right. assumption.
+Qed.
+
+Lemma alts_agree (g : meth -> pyval -> res) (h : ty -> sres) (cmp : ty -> meth) d ts :
+  Forall (fun t => agree (g (cmp t) d) (h t)) ts ->
+  forall err, (err <> None \/ ts <> []) -> agree (union_alts g d (map cmp ts) err) (first_spec h ts).
+Proof.
+  induction 1 as [|t ts Ht Hts IH]; intros err Hne; simpl.
+  - destruct err; [auto|]. destruct Hne; congruence.
+  - destruct (g (cmp t) d) eqn:G; destruct (h t) eqn:Hh; simpl in Ht; try contradiction; subst; auto.
+    apply IH. left. discriminate.
+Qed.
+
+Definition the_cls (t : ty) : pcls := match ty_cls t with Some c => c | None => CNone end.
+
+Lemma flat_some_eq ts :
+  forallb (fun c => match c with Some _ => true | None => false end) (map ty_cls ts) = true ->
+  flat_map (fun c => match c with Some x => [x] | None => [] end) (map ty_cls ts) = map the_cls ts.
+Proof.
+  induction ts as [|t ts IH]; simpl; intros H; [reflexivity|]. unfold the_cls at 1.
+  destruct (ty_cls t); [|discriminate]. simpl. rewrite IH by exact H. reflexivity.
+Qed.
+
+Lemma combine_map {A B C} (f : A -> B) (g : A -> C) l : combine (map f l) (map g l) = map (fun x => (f x, g x)) l.
+Proof. induction l as [|x l IH]; simpl; [reflexivity|]. rewrite IH. reflexivity. Qed.
+
+Definition compat (c : pcls) (d : pyval) : Prop := cls_of d = c \/ (c = CFloat /\ cls_of d = CInt).
+
+Lemma pcls_eqb_eq a b : pcls_eqb a b = true <-> a = b.
+Proof. destruct a, b; simpl; split; congruence. Qed.
+Lemma pcls_eqb_neq a b : pcls_eqb a b = false <-> a <> b.
+Proof. destruct a, b; simpl; split; congruence. Qed.
+
+Lemma cls_reject fuel : forall t acc d cl,
+  ty_cls t = Some cl -> ~ compat cl d -> rej_or_fuel (sp fuel acc t d).
+Proof.
+  unfold compat. induction t using ty_ind'; intros acc d cl Hc Hn; simpl in Hc; try discriminate.
+  - injection Hc as <-. rewrite spec_TNone. destruct d; try (left; reflexivity). exfalso. apply Hn. left. reflexivity.
+  - injection Hc as <-. rewrite spec_TBool. destruct d; try (left; reflexivity). exfalso. apply Hn. left. reflexivity.
+  - injection Hc as <-. rewrite spec_TInt. destruct d; try (left; reflexivity). exfalso. apply Hn. left. reflexivity.
+  - injection Hc as <-. rewrite spec_TFloat. destruct d; try (left; reflexivity); exfalso; apply Hn; [right; split|left]; reflexivity.
+  - injection Hc as <-. rewrite spec_TStr. destruct d; try (left; reflexivity). exfalso. apply Hn. left. reflexivity.
+  - injection Hc as <-. rewrite spec_TColl. destruct d; try (left; reflexivity). exfalso. apply Hn. left. reflexivity.
+  - injection Hc as <-. rewrite spec_TTuple. destruct d; try (left; reflexivity). exfalso. apply Hn. left. reflexivity.
+  - injection Hc as <-. rewrite spec_TMap. destruct d; try (left; reflexivity). exfalso. apply Hn. left. reflexivity.
+  - rewrite spec_TCon. eapply IHt; eassumption.
+  - destruct ts as [|t1 [|t2 ts]]; try discriminate. rewrite spec_TUnion. simpl.
+    inversion H as [|? ? H1 _]; subst. destruct (H1 acc d cl Hc Hn) as [E|E]; rewrite E; [left|right]; reflexivity.
+  - injection Hc as <-. destruct fuel; [right; reflexivity|]. rewrite spec_TObj_S. cbv zeta.
+    destruct d; try (left; reflexivity). exfalso. apply Hn. left. reflexivity.
+Qed.
+
+Lemma nodup_cls_cons c l : nodup_cls (c :: l) = true -> existsb (pcls_eqb c) l = false /\ nodup_cls l = true.
+Proof. simpl. intros H. apply andb_true_iff in H. destruct H as [H1 H2]. apply negb_true_iff in H1. auto. Qed.
+
+Lemma existsb_cls_false c l x : existsb (pcls_eqb c) l = false -> In x l -> x <> c.
+Proof.
+  intros H Hin E. subst x. induction l as [|y l IH]; simpl in *; [contradiction|].
+  apply orb_false_iff in H. destruct H as [H1 H2]. destruct Hin as [<-|Hin]; [|auto].
+  apply pcls_eqb_neq in H1. congruence.
+Qed.
+
+Section ByType.
+  Variable g : meth -> pyval -> res.
+  Variable h : ty -> sres.
+  Variable cmp : ty -> meth.
+  Variable d : pyval.
+  Variable all : list ty.
+  Let tbl := map (fun t => (the_cls t, cmp t)) all.
+
+  Definition fallback_of (c : pcls) (e : verr) : res :=
+    match (if pcls_eqb c CInt then float_alt g d tbl else None) with
+    | Some (RErr e2) =>
+        RErr (merge (merge e e2)
+                    (bad_type d (filter (fun x => negb (pcls_eqb x CInt || pcls_eqb x CFloat)) (map fst tbl))))
+    | Some other => other
+    | None => RErr (merge e (bad_type d (filter (fun x => negb (pcls_eqb x c)) (map fst tbl))))
+    end.
+
+  (* where the dispatch lands *)
+  Lemma find_shape c ts :
+    (exists pre t post, ts = (pre ++ t :: post)%list /\ the_cls t = c /\ (forall p, In p pre -> the_cls p <> c) /\
+       bytype_find g d c tbl (map (fun t => (the_cls t, cmp t)) ts)
+       = match g (cmp t) d with RErr e => fallback_of c e | other => other end)
+    \/ ((forall p, In p ts -> the_cls p <> c) /\
+        bytype_find g d c tbl (map (fun t => (the_cls t, cmp t)) ts) = RErr (bad_type d (map fst tbl))).
+  Proof.
+    induction ts as [|t ts IH]; simpl.
+    - right. split; [tauto|reflexivity].
+    - destruct (pcls_eqb c (the_cls t)) eqn:E.
+      + left. exists [], t, ts. apply pcls_eqb_eq in E.
+        split; [reflexivity|]. split; [congruence|]. split; [intros p []|reflexivity].
+      + apply pcls_eqb_neq in E. destruct IH as [[pre [t' [post [E1 [E2 [E3 E4]]]]]]|[E1 E2]].
+        * left. exists (t :: pre), t', post. subst ts.
+          split; [reflexivity|]. split; [exact E2|]. split; [|exact E4].
+          intros p [<-|Hp]; [congruence|auto].
+        * right. split; [|exact E2]. intros p [<-|Hp]; [congruence|auto].
+  Qed.
+
+  Lemma float_alt_shape ts :
+    (exists pre t post, ts = (pre ++ t :: post)%list /\ the_cls t = CFloat /\ (forall p, In p pre -> the_cls p <> CFloat) /\
+       float_alt g d (map (fun t => (the_cls t, cmp t)) ts) = Some (g (cmp t) d))
+    \/ ((forall p, In p ts -> the_cls p <> CFloat) /\ float_alt g d (map (fun t => (the_cls t, cmp t)) ts) = None).
+  Proof.
+    induction ts as [|t ts IH].
+    - right. split; [intros p []|reflexivity].
+    - destruct (pcls_eqb CFloat (the_cls t)) eqn:E.
+      + left. exists [], t, ts. pose proof E as E'. apply pcls_eqb_eq in E'.
+        split; [reflexivity|]. split; [congruence|]. split; [intros p []|].
+        cbn [map float_alt]. cbn [fst snd]. rewrite E. reflexivity.
+      + pose proof E as E'. apply pcls_eqb_neq in E'.
+        destruct IH as [[pre [t' [post [E1 [E2 [E3 E4]]]]]]|[E1 E2]].
+        * left. exists (t :: pre), t', post. subst ts.
+          split; [reflexivity|]. split; [exact E2|]. split.
+          -- intros p [<-|Hp]; [congruence|auto].
+          -- cbn [map float_alt]. cbn [fst snd]. rewrite E. exact E4.
+        * right. split.
+          -- intros p [<-|Hp]; [congruence|auto].
+          -- cbn [map float_alt]. cbn [fst snd]. rewrite E. exact E2.
+  Qed.
+End ByType.
+
+Lemma split_two {A} (cls : A -> pcls) pre t post pre' tf post' :
+  (pre ++ t :: post = pre' ++ tf :: post')%list -> cls t <> cls tf -> (forall p, In p pre -> cls p <> cls tf) ->
+  exists mid, post = (mid ++ tf :: post')%list /\ pre' = (pre ++ t :: mid)%list.
+Proof.
+  revert pre'. induction pre as [|p pre IH]; intros pre' E Ht Hp.
+  - destruct pre' as [|x pre'']; simpl in E; injection E as E1 E2.
+    + congruence.
+    + subst. exists pre''. split; reflexivity.
+  - destruct pre' as [|x pre'']; simpl in E; injection E as E1 E2.
+    + subst. exfalso. apply (Hp tf); [left; reflexivity|reflexivity].
+    + subst x. destruct (IH pre'' E2 Ht) as [mid [M1 M2]]; [intros; apply Hp; right; assumption|].
+      exists mid. split; [exact M1|]. simpl. rewrite M2. reflexivity.
+Qed.
+
+Lemma fbi_true l : In (Some CInt) l -> float_before_int l true = true.
+Proof.
+  induction l as [|x l IH]; intros H; [contradiction|]. destruct H as [->|H]; [reflexivity|].
+  simpl. destruct x as [[]|]; auto.
+Qed.
+
+Lemma fbi_prefix pre (t : ty) post :
+  float_before_int (map ty_cls (pre ++ t :: post)) false = false -> ty_cls t = Some CInt ->
+  forall p, In p pre -> ty_cls p <> Some CFloat.
+Proof.
+  induction pre as [|x pre IH]; intros H Ht p Hp; [contradiction|]. cbn [map app float_before_int] in H.
+  assert (Hin : In (Some CInt) (map ty_cls (pre ++ t :: post))).
+  { rewrite map_app. apply in_or_app. right. simpl. left. exact Ht. }
+  destruct (ty_cls x) as [[]|] eqn:Ex;
+    try (destruct Hp as [<-|Hp]; [congruence|eapply IH; eassumption]).
+  rewrite (fbi_true _ Hin) in H. discriminate.
+Qed.
+
+Lemma has_iff (cmp : ty -> meth) ts c :
+  existsb (fun cm : pcls * meth => pcls_eqb c (fst cm)) (map (fun t => (the_cls t, cmp t)) ts) = true
+  <-> exists t, In t ts /\ the_cls t = c.
+Proof.
+  rewrite existsb_exists. split.
+  - intros [[c' m] [Hin E]]. apply in_map_iff in Hin. destruct Hin as [t [Et Hin]]. injection Et as <- <-.
+    simpl in E. apply pcls_eqb_eq in E. exists t. auto.
+  - intros [t [Hin E]]. exists (the_cls t, cmp t). split; [apply in_map_iff; exists t; auto|].
+    simpl. apply pcls_eqb_eq. auto.
+Qed.
+
+Lemma nodup_cls_split (cls : ty -> pcls) pre t post :
+  nodup_cls (map cls (pre ++ t :: post)) = true ->
+  (forall p, In p pre -> cls p <> cls t) /\ (forall p, In p post -> cls p <> cls t).
+Proof.
+  induction pre as [|x pre IH]; simpl; intros H.
+  - apply andb_true_iff in H. destruct H as [H1 H2]. apply negb_true_iff in H1. split; [intros p []|].
+    intros p Hp. eapply existsb_cls_false; [exact H1|]. apply in_map. exact Hp.
+  - apply andb_true_iff in H. destruct H as [H1 H2]. apply negb_true_iff in H1. destruct (IH H2) as [I1 I2].
+    split; [|exact I2]. intros p [<-|Hp]; [|auto].
+    intros E. assert (In (cls t) (map cls (pre ++ t :: post))) by (apply in_map; apply in_or_app; right; left; reflexivity).
+    eapply (existsb_cls_false _ _ _ H1 H). congruence.
+Qed.
+
+Definition kind_eq (a b : res) : Prop :=
+  match a, b with
+  | ROk v, ROk v' => v = v'
+  | RErr _, RErr _ => True
+  | RCrash _, RCrash _ => True
+  | RFuel, RFuel => True
+  | _, _ => False
+  end.
+
+Lemma agree_kind a b s : kind_eq a b -> agree a s -> agree b s.
+Proof. destruct a, b, s; simpl; intros; subst; auto; contradiction. Qed.
+
+Lemma bytype_agree fuel acc ts d :
+  forallb (fun c => match c with Some _ => true | None => false end) (map ty_cls ts) = true ->
+  nodup_cls (map the_cls ts) = true ->
+  float_before_int (map ty_cls ts) false = false ->
+  Forall (fun t => agree (ex fuel (compile o acc t) d) (sp fuel acc t d)) ts ->
+  agree (ex fuel (MByType (combine (map the_cls ts) (map (compile o acc) ts))) d)
+        (first_spec (fun t => sp fuel acc t d) ts).
+Proof.
+  intros Hsome Hnd Hfbi HA.
+  rewrite exec_MByType, combine_map. cbv zeta.
+  set (h := fun t => sp fuel acc t d). set (cmp := compile o acc) in *. set (g := ex fuel) in *.
+  set (tbl := map (fun t => (the_cls t, cmp t)) ts).
+  assert (Hcls : forall t, In t ts -> ty_cls t = Some (the_cls t)).
+  { intros t Hin. rewrite forallb_forall in Hsome. specialize (Hsome (ty_cls t) (in_map _ _ _ Hin)).
+    unfold the_cls. destruct (ty_cls t); [reflexivity|discriminate]. }
+  assert (HR : forall t, In t ts -> ~ compat (the_cls t) d -> rej_or_fuel (h t)).
+  { intros t Hin Hn. eapply cls_reject; [apply Hcls; exact Hin|exact Hn]. }
+  rewrite Forall_forall in HA.
+  assert (Hag : forall t, In t ts -> agree (g (cmp t) d) (h t)) by exact HA.
+  (* generic conclusion once the dispatched alternative is isolated and everything else rejects *)
+  assert (Single : forall pre t post, ts = (pre ++ t :: post)%list ->
+            (forall p, In p pre -> rej_or_fuel (h p)) -> (forall p, In p post -> rej_or_fuel (h p)) ->
+            forall r, kind_eq (g (cmp t) d) r -> agree r (first_spec h ts)).
+  { intros pre t post E Hpre Hpost r Hk. apply (agree_kind _ _ _ Hk). clear Hk r. subst ts.
+    assert (Ht : agree (g (cmp t) d) (h t)) by (apply Hag; apply in_or_app; right; left; reflexivity).
+    destruct (first_skip h pre (t :: post) Hpre) as [F|F]; rewrite F; [destruct (g (cmp t) d); auto|].
+    simpl. pose proof (first_all_rej h post Hpost) as Fp.
+    destruct (g (cmp t) d) eqn:G; destruct (h t) eqn:Hh; simpl in Ht; try contradiction; subst; auto.
+    destruct Fp as [->| ->]; auto. }
+  destruct (pcls_eqb (cls_of d) CInt && negb (existsb (fun cm : pcls * meth => pcls_eqb CInt (fst cm)) tbl)
+            && existsb (fun cm : pcls * meth => pcls_eqb CFloat (fst cm)) tbl)%bool eqn:Adj.
+  - (* integer sent to the float alternative: there is no int alternative *)
+    apply andb_true_iff in Adj. destruct Adj as [Adj HasF]. apply andb_true_iff in Adj. destruct Adj as [Ci NoI].
+    apply pcls_eqb_eq in Ci. apply negb_true_iff in NoI.
+    assert (NoInt : forall p, In p ts -> the_cls p <> CInt).
+    { intros p Hp E. assert (X : existsb (fun cm : pcls * meth => pcls_eqb CInt (fst cm)) tbl = true)
+        by (apply has_iff; exists p; auto). congruence. }
+    destruct (find_shape g h cmp d ts CFloat ts) as [[pre [t [post [E [Ec [Hpre Hres]]]]]]|[Hno _]].
+    + fold tbl in Hres. rewrite Hres. unfold fallback_of. cbn [pcls_eqb].
+      destruct (nodup_cls_split the_cls pre t post) as [N1 N2]; [rewrite <- E; exact Hnd|].
+      eapply Single; [exact E| | |destruct (g (cmp t) d); simpl; auto].
+      * intros p Hp. apply HR; [rewrite E; apply in_or_app; left; exact Hp|].
+        unfold compat. rewrite Ci. intros [X|[X _]]; [apply (NoInt p); [rewrite E; apply in_or_app; left; exact Hp|congruence]|].
+        apply (N1 p Hp). congruence.
+      * intros p Hp. apply HR; [rewrite E; apply in_or_app; right; right; exact Hp|].
+        unfold compat. rewrite Ci. intros [X|[X _]]; [apply (NoInt p); [rewrite E; apply in_or_app; right; right; exact Hp|congruence]|].
+        apply (N2 p Hp). congruence.
+    + exfalso. apply has_iff in HasF. destruct HasF as [t [Hin Et]]. exact (Hno t Hin Et).
+  - destruct (find_shape g h cmp d ts (cls_of d) ts) as [[pre [t [post [E [Ec [Hpre Hres]]]]]]|[Hno Hres]];
+      fold tbl in Hres; rewrite Hres.
+    + destruct (nodup_cls_split the_cls pre t post) as [N1 N2]; [rewrite <- E; exact Hnd|].
+      unfold fallback_of. subst tbl.
+      destruct (pcls_eqb (cls_of d) CInt) eqn:Ci.
+      * (* integer datum, int alternative present *)
+        apply pcls_eqb_eq in Ci.
+        destruct (float_alt_shape g cmp d ts) as [[pre' [tf [post' [E' [Ecf [Hpre' Hf]]]]]]|[Hnof Hf]];
+          rewrite Hf.
+        -- (* both alternatives: int comes first *)
+           assert (Tint : ty_cls t = Some CInt) by (rewrite (Hcls t); [congruence|rewrite E; apply in_or_app; right; left; reflexivity]).
+           assert (NoFpre : forall p, In p pre -> the_cls p <> CFloat).
+           { intros p Hp X. rewrite E in Hfbi. apply (fbi_prefix pre t post Hfbi Tint p Hp).
+             rewrite (Hcls p); [congruence|rewrite E; apply in_or_app; left; exact Hp]. }
+           destruct (split_two the_cls pre t post pre' tf post') as [mid [M1 M2]];
+             [congruence|congruence|intros p Hp; rewrite Ecf; apply NoFpre; exact Hp|].
+           assert (Rpre : forall p, In p pre -> rej_or_fuel (h p)).
+           { intros p Hp. apply HR; [rewrite E; apply in_or_app; left; exact Hp|].
+             unfold compat. rewrite Ci. intros [X|[X _]]; [apply (N1 p Hp); congruence|exact (NoFpre p Hp X)]. }
+           assert (Ht := Hag t ltac:(rewrite E; apply in_or_app; right; left; reflexivity)).
+           assert (Htf := Hag tf ltac:(rewrite E'; apply in_or_app; right; left; reflexivity)).
+           assert (Rmid : forall p, In p mid -> rej_or_fuel (h p)).
+           { intros p Hp. assert (Hpost : In p post) by (rewrite M1; apply in_or_app; left; exact Hp).
+             apply HR; [rewrite E; apply in_or_app; right; right; exact Hpost|].
+             unfold compat. rewrite Ci. intros [X|[X _]]; [apply (N2 p Hpost); congruence|].
+             apply (Hpre' p); [rewrite M2; apply in_or_app; right; right; exact Hp|exact X]. }
+           assert (Rpost' : forall p, In p post' -> rej_or_fuel (h p)).
+           { intros p Hp. assert (Hpost : In p post) by (rewrite M1; apply in_or_app; right; right; exact Hp).
+             apply HR; [rewrite E; apply in_or_app; right; right; exact Hpost|].
+             unfold compat. rewrite Ci. intros [X|[X _]]; [apply (N2 p Hpost); congruence|].
+             destruct (nodup_cls_split the_cls pre' tf post') as [_ NF]; [rewrite <- E'; exact Hnd|].
+             apply (NF p Hp). congruence. }
+           rewrite E. destruct (first_skip h pre (t :: post) Rpre) as [F|F]; rewrite F;
+             [destruct (g (cmp t) d); auto; destruct (g (cmp tf) d); auto|].
+           simpl. destruct (g (cmp t) d) eqn:G; destruct (h t) eqn:Hh; simpl in Ht; try contradiction;
+             try (rewrite Ht); auto; try (destruct (g (cmp tf) d); auto; fail).
+           rewrite M1. destruct (first_skip h mid (tf :: post') Rmid) as [F2|F2]; rewrite F2;
+             [destruct (g (cmp tf) d); auto|].
+           simpl. pose proof (first_all_rej h post' Rpost') as Fp.
+           destruct (g (cmp tf) d) eqn:G2; destruct (h tf) eqn:Hh2; simpl in Htf; try contradiction;
+             try (rewrite Htf); auto.
+           destruct Fp as [->| ->]; auto.
+        -- (* no float alternative *)
+           eapply Single; [exact E| | |destruct (g (cmp t) d); simpl; auto].
+           ++ intros p Hp. apply HR; [rewrite E; apply in_or_app; left; exact Hp|].
+              unfold compat. intros [X|[X _]]; [apply (N1 p Hp); congruence|].
+              apply (Hnof p); [rewrite E; apply in_or_app; left; exact Hp|exact X].
+           ++ intros p Hp. apply HR; [rewrite E; apply in_or_app; right; right; exact Hp|].
+              unfold compat. intros [X|[X _]]; [apply (N2 p Hp); congruence|].
+              apply (Hnof p); [rewrite E; apply in_or_app; right; right; exact Hp|exact X].
+      * apply pcls_eqb_neq in Ci.
+        eapply Single; [exact E| | |destruct (g (cmp t) d); simpl; auto].
+        -- intros p Hp. apply HR; [rewrite E; apply in_or_app; left; exact Hp|].
+           unfold compat. intros [X|[_ X]]; [apply (N1 p Hp); congruence|congruence].
+        -- intros p Hp. apply HR; [rewrite E; apply in_or_app; right; right; exact Hp|].
+           unfold compat. intros [X|[_ X]]; [apply (N2 p Hp); congruence|congruence].
+    + (* no alternative for the class of the datum *)
+      assert (Rall : forall p, In p ts -> rej_or_fuel (h p)).
+      { intros p Hp. apply HR; [exact Hp|]. unfold compat. intros [X|[X Ci]]; [apply (Hno p Hp); congruence|].
+        (* a float alternative and an integer datum: then the dispatch would have been adjusted, or an int alternative exists *)
+        assert (HF : existsb (fun cm : pcls * meth => pcls_eqb CFloat (fst cm)) tbl = true) by (apply has_iff; exists p; auto).
+        destruct (existsb (fun cm : pcls * meth => pcls_eqb CInt (fst cm)) tbl) eqn:HI.
+        - apply has_iff in HI. destruct HI as [q [Hq Eq]]. apply (Hno q Hq). congruence.
+        - rewrite Ci, HF in Adj. cbn in Adj. discriminate. }
+      destruct (first_all_rej h ts Rall) as [->| ->]; auto.
+Qed.
+
+End Main.
